@@ -14,6 +14,10 @@ if tag.startswith("d"):
     EXTRA = """
 This is a fourth round. Earlier rounds already produced: operator flips and off-by-one changes, dropped cache invalidations, lists aliased instead of copied, reordered statements, setters that forget part of their update, results cached without the encoding in the key, special cases dropped from rarely used options, falsy-value tests (`if x:` instead of `if x is not None:`), and refactorings of the single most central function. Find changes of yet another nature, for example: two methods that must agree (rows() and render(), pack() and render(), a reported position and a drawn one, a getter and the state a key handler uses) where only one of them is changed; state that is restored incorrectly after an exception was raised and caught once; behaviour at the exact maximum or minimum of a numeric range; an early return that skips bookkeeping needed by the *next* call; iteration order or tie-breaking between equal candidates; re-entrancy (a callback calling back into the same object); a default value changed in one of two places; a loop bound that is right for every length but 0 or 1; handling of the last element versus all others. Prefer sites in the less central files among the anchors.
 """
+if tag.startswith("e"):
+    EXTRA = """
+This is a fifth round; the harness has already been shown (and hardened against) operator flips, off-by-one changes, dropped cache invalidations, aliased lists, reordered statements, incomplete setters, caches keyed without the encoding, dropped special cases of rare options, falsy-value tests, disagreeing method pairs (rows/render, pack/render, hit-test/render), stale state after a handled exception, range limits, skipped bookkeeping, and un-rendered call pairs. Look for something it has probably not seen: a sibling class or variant of the obvious one (a subclass, a deprecated alias, the second of two walkers/loops/back-ends, the str path versus the bytes path); class-level or module-level state shared by several instances; mutable default arguments; behaviour that depends on the *order* in which two independent objects are created or used; values that are equal but not identical (or the reverse); negative, zero or very large sizes and counts (hundreds of columns, thousands of items); text made of unusual but legal characters (tabs, carriage returns, zero-width joiners, characters outside the BMP, the last code point); an exception type changed to a sibling type; a return value changed from None/True/False to another falsy/truthy value; cleanup that happens twice or not at all when the same step is repeated. Keep the change small and plausible, and prefer a different file for each of the three changes when the anchors allow it.
+"""
 prop = next(json.loads(l) for l in open('/verif/properties.jsonl') if json.loads(l)['id'] == pid)
 wt = f"/tmp/seedwork/wt_{pid}_{tag}"
 if not os.path.exists(wt):
